@@ -53,6 +53,10 @@ def body_of(desc, rng):
         return b'\x00' * 1000000        # compresses better than 1000:1 under every algorithm (20000:1 under BZ2)
     if b == '64k':
         return bytes(rng.getrandbits(8) for _ in range(65536))
+    if b == 'far':
+        # repeats 9 000 - 30 000 octets back: only a full 32 KiB window writes and reads them
+        blk = bytes(rng.getrandbits(8) for _ in range(30000))
+        return blk + blk[:21000] + blk[9000:] + blk[100:12000]
     if b == '4m':
         blk = bytes(rng.getrandbits(8) for _ in range(4096))
         return blk * 1024
